@@ -2,6 +2,7 @@ package main
 
 import (
 	"fmt"
+	"os"
 	"runtime/debug"
 	"strings"
 	"verif/mc/proto"
@@ -50,4 +51,16 @@ func max(a, b int) int {
 		return a
 	}
 	return b
+}
+
+// knownKeys are the violation keys the supervisor lists as known findings of the property under check (VERIF_KNOWN_KEYS,
+// comma separated): explorations record them once and go on.
+func knownKeys() map[string]bool {
+	m := map[string]bool{}
+	for _, k := range strings.Split(os.Getenv("VERIF_KNOWN_KEYS"), ",") {
+		if k != "" {
+			m[k] = true
+		}
+	}
+	return m
 }
